@@ -26,6 +26,7 @@ func init() {
 			"G7 the rename walkers visit every binding of every binding list: no sub-slice of BindStms.List and no early exit from a loop over it that does work per element (the wildcard binding is an ordinary entry and may hold the reference). " +
 			"G8 renames consider a binding supplied through a wildcard (one known finding), G9 the unused-output search visits every called pipeline, G10 declaration objects of separately compiled files are never compared for identity. " +
 			"G11 every iteration over the given ASTs that adjusts the top-level call reads Ast.Call (except where the file does not declare the callable). " +
+			"G12 top calls are deleted from the trim candidates in a later pass than the one adding children. " +
 			"NOT decided: that the edited program compiles, call-graph equality, round-trip of renames.",
 		Assumptions: commonAssumptions,
 	}
@@ -313,6 +314,7 @@ func runC19(c *an.Ctx) {
 	ruleG9(c, sp)
 	ruleG10(c, sp)
 	ruleG11(c)
+	ruleG12(c)
 
 	// ---------------- G2 ----------------
 	walkers := []struct {
